@@ -667,7 +667,7 @@ func (g *G) validShape(name string) (args []arg, ok bool) {
 		case 1:
 			return a(kw("GETNAME")), true
 		case 2:
-			return a(kw("SETNAME"), arg{g.pick("cname", []string{"me", "a=b", "123", "true", "x\"y", "n\\"}), rVal}), true
+			return a(kw("SETNAME"), arg{g.pick("cname", []string{"me", "a=b", "123", "true", "x\"y", "n\\", "007", "1e3", "0x1p4", "null", "false", "-0", "1.0", "+5", ".5", "12345678901234567890"}), rVal}), true
 		default:
 			// only forms that cannot match a live connection
 			return a(kw("KILL"), kw(g.pick("killby", []string{"ID", "ADDR"})), arg{g.pick("killwho", []string{"noclient", "0.0.0.0:1"}), rVal}), true
